@@ -94,7 +94,9 @@ func c08Inner() *ref.Struct {
 func c08Shape() *ref.Struct {
 	sc := universe.Sc
 	in := c08Inner()
-	s := mk(fd(1, ref.ReqRequired, sc(ref.KI64)), fd(2, ref.ReqDefault, universe.MapOf(sc(ref.KI32), universe.StVal(in))), fd(3, ref.ReqOptional, universe.ListOf(universe.StPtr(in))), fd(64, ref.ReqRequired, sc(ref.KString)))
+	// (the maps with binary values and double keys go through the encoder's generic, reflection-iterated routine)
+	s := mk(fd(1, ref.ReqRequired, sc(ref.KI64)), fd(2, ref.ReqDefault, universe.MapOf(sc(ref.KI32), universe.StVal(in))), fd(3, ref.ReqOptional, universe.ListOf(universe.StPtr(in))),
+		fd(5, ref.ReqDefault, universe.MapOf(sc(ref.KString), sc(ref.KBinary))), fd(6, ref.ReqDefault, universe.MapOf(sc(ref.KDouble), sc(ref.KI32))), fd(64, ref.ReqRequired, sc(ref.KString)))
 	s.Unknown = true
 	return s
 }
@@ -110,7 +112,14 @@ func entryOps(tag string, s *ref.Struct, salt int) []histOp {
 	v := c08Value(s, salt)
 	msg := ref.Encode(s, v)
 	e := encOps(tag, s, v)
-	return []histOp{e[0], e[1], e[2], e[3], decOp(tag+":dec", s, msg, nil), decOp(tag+":dec(truncated)", s, msg[:len(msg)-3], nil)}
+	ops := []histOp{e[0], e[1], e[2], e[3], decOp(tag+":dec", s, msg, nil), decOp(tag+":dec(truncated)", s, msg[:len(msg)-3], nil)}
+	if last := s.Fields[len(s.Fields)-1]; last.Req == ref.ReqRequired {
+		// the same message without its last (required) field: rejected with an error naming that field
+		w := &ref.Struct{Unknown: s.Unknown, Fields: s.Fields[:len(s.Fields)-1]}
+		wv := &ref.Val{K: ref.KStruct, F: v.F[:len(v.F)-1], Unk: v.Unk}
+		ops = append(ops, decOp(tag+":dec(required field missing)", s, ref.Encode(w, wv), nil))
+	}
+	return ops
 }
 
 var c08Scenarios = []c08Scenario{
